@@ -27,6 +27,8 @@ Checks(ev) ==
         \* the derived identity must be a usable (non-identity) element of G1
         <<"identity-not-at-infinity", Qid # <<>>>>,
         <<"negatives-differ", Qid = <<>> \/ \A i \in 1..Len(ev.out.neg_in) : (i \in {1, 2} /\ Aff1(ev.out.id2) = Qid) \/ ev.out.neg_in[i] # ev.out.enc_in>>,
+        \* names the route of a known finding (the order-3 point (0, +-2)); never a violation by itself
+        <<"diag.tai-x-nonzero", ~IsZero(TaiX(ev.idhash))>>,
         <<"diag.sampler-protocol", rho = Norm(ev.t)>> >>
 Fails(ev) == IF ev.op # "lq.run" THEN {"unknown-op"} ELSE FailsOf(Checks(ev))
 Init == l \in 1..NLines /\ st = "todo"
